@@ -18,8 +18,14 @@
     * `cleanup_spec` — the doubled carboxylic proton is removed exactly when both are present;
     * `written_or_reported` — whatever the force-field map, the atoms found (printed) and the
       atoms reported missing are together a permutation of all atoms of all residues.
+    * `repair_complete`, `repair_reports`, `repair_keeps_known`, `repair_nodup` — one residue through
+      `repair_heavy`: every heavy atom of the reference present afterwards, every input atom kept
+      or reported as deleted, atoms the reference knows always kept, no duplicates;
+    * `hydrogens_complete`, `hydrogens_only_adds`, `hydrogens_nodup` — one residue through
+      `add_hydrogens`: with every placement succeeding no reference hydrogen is missing (except
+      HG of a bridged cysteine), nothing is removed, only reference hydrogens are added, once.
   Not modelled: `Carboxylic` (its doubles and the O-swap through the temporary name `FLIP`),
-  heavy-atom repair and `add_hydrogens` — covered by the oracle on real runs only (final names of
+  patch application, the retry order of `repair_heavy` — covered by the oracle on real runs only (final names of
   every residue against the topology of its final state, input heavy atoms conserved unless
   reported, matched ∪ missing = all, PQR lines = matched). Partial on exactly those.
 -/
@@ -60,6 +66,45 @@ theorem cleanup_spec (s : Names) (first second : Str) (hs : s.Nodup) (hne : firs
 theorem written_or_reported (m : P2P.FF.FFMap) (rs : List P2P.FF.ARes) :
     ((P2P.FF.applyFF m rs).1.map (·.1) ++ (P2P.FF.applyFF m rs).2).Perm (rs.flatMap (·.atoms)) :=
   P2P.Proofs.FF.applyFF_partition_core m rs
+
+/-! ### heavy-atom repair and hydrogen addition, one residue -/
+
+/-- after `repair_heavy` every heavy atom of the reference is present -/
+theorem repair_complete (refNames : List Str) (s : Names) (n : Str) (hn : n ∈ refNames)
+    (hh : isH n = false) (hp : isPseudo n = false) (h1 : ¬ (n = str "O1P" ∧ OP1 ∈ s)) (h2 : ¬ (n = str "O2P" ∧ OP2 ∈ s)) :
+    n ∈ (repairHeavy refNames s).1 :=
+  repair_complete_core refNames s n hn hh hp h1 h2
+
+/-- an input atom is kept or its deletion is reported — never dropped silently -/
+theorem repair_reports (refNames : List Str) (s : Names) (n : Str) (hn : n ∈ s) :
+    n ∈ (repairHeavy refNames s).1 ∨ n ∈ (repairHeavy refNames s).2 :=
+  repair_reports_core refNames s n hn
+
+/-- an input atom the reference knows is always kept -/
+theorem repair_keeps_known (refNames : List Str) (s : Names) (n : Str) (hn : n ∈ s) (hr : n ∈ refNames) :
+    n ∈ (repairHeavy refNames s).1 ∧ n ∉ (repairHeavy refNames s).2 :=
+  repair_keeps_known_core refNames s n hn hr
+
+theorem repair_nodup (refNames : List Str) (s : Names) (hs : s.Nodup) (hr : refNames.Nodup) :
+    (repairHeavy refNames s).1.Nodup :=
+  repair_nodup_core refNames s hs hr
+
+/-- when every placement succeeds, `add_hydrogens` leaves no hydrogen of the reference missing
+(except the skipped HG of a bridged cysteine) -/
+theorem hydrogens_complete (refNames : List Str) (skip ok : Str → Bool) (s : Names)
+    (hok : ∀ n, ok n = true) (n : Str) (hn : n ∈ refNames) (hh : isH n = true) (hs : skip n = false) :
+    n ∈ addHydrogens refNames skip ok s :=
+  hydrogens_complete_core refNames skip ok s hok n hn hh hs
+
+/-- it removes nothing and invents nothing: only hydrogens of the reference are added -/
+theorem hydrogens_only_adds (refNames : List Str) (skip ok : Str → Bool) (s : Names) :
+    (∀ n ∈ s, n ∈ addHydrogens refNames skip ok s) ∧
+    (∀ n ∈ addHydrogens refNames skip ok s, n ∈ s ∨ (n ∈ refNames ∧ isH n = true ∧ skip n = false)) :=
+  hydrogens_only_adds_core refNames skip ok s
+
+theorem hydrogens_nodup (refNames : List Str) (skip ok : Str → Bool) (s : Names) (hs : s.Nodup) :
+    (addHydrogens refNames skip ok s).Nodup :=
+  hydrogens_nodup_core refNames skip ok s hs
 
 /-! ### non-vacuity -/
 example : ([str "N", str "CA", str "OD1", str "ND2"] : Names).Nodup ∧ NoTemp [str "N", str "CA", str "OD1", str "ND2"] := by
